@@ -305,6 +305,38 @@ theorem nodata_nsec_full_fails :
     evaluateAggressiveNSEC [L "example", L "sub"] 1 1 wzone.apex [wrec] = .error .badDelegation :=
   ⟨by decide, by decide, by decide, by decide⟩
 
+/-! ### non-vacuity: the hypotheses of the theorems above are satisfiable -/
+
+theorem wzone_chain_ok : SetOK wzone wzone.chain := fun _ hr => Or.inl hr
+
+-- the full chain of `wzone` proves NXDOMAIN for `b.example.` (classifier and exact validator) …
+example : evaluateAggressiveNSEC [L "example", L "b"] 1 1 wzone.apex wzone.chain = .ok (.nxdomain, [0]) := by decide
+example : wzone.answerClass [L "example", L "b"] 1 = .nxdomain :=
+  (aggressive_nsec_sound wzone wzone_wf wzone.chain wzone_chain_ok [L "example", L "b"] 1 1 .nxdomain [0]
+    (by decide)).2.2.1 rfl
+example : wzone.answerClass [L "example", L "b"] 1 = .nxdomain :=
+  nameError_nsec_sound_partial wzone wzone_wf (by decide) wzone.chain wzone_chain_ok [L "example", L "b"]
+    (by decide) 1 (by decide) (by decide) (by decide)
+-- … NODATA for `zzz.example. AAAA`, and the insecure delegation `sub.example.`
+example : wzone.answerClass [L "example", L "zzz"] 28 = .nodata :=
+  nodata_nsec_sound_partial wzone wzone_wf wzone.chain wzone_chain_ok [L "example", L "zzz"] (by decide) 28
+    (by decide) (by decide)
+example : ∃ n, wzone.find [L "example", L "sub"] = some n ∧ delegTypes n.types = true ∧ tDS ∉ n.types :=
+  delegation_nsec_sound wzone wzone_wf wzone.chain wzone_chain_ok [L "example", L "sub"] (by decide)
+-- a covering record and the closest encloser it yields (an empty non-terminal counts)
+example : closestEncloserFromNSEC [L "example", L "b", L "0"] erec = [L "example", L "b"] ∧
+    ezone.inTree [L "example", L "b"] = true ∧ ezone.find [L "example", L "b"] = none := by decide
+example : [L "example", L "b", L "0"] ∉ ezone.authNames :=
+  nsec_cover_excludes ezone ezone_wf erec (by decide) _ (by decide)
+-- out-of-zone pollution makes the classifier refuse the whole set
+example : SetOK wzone ({ owner := [L "other"], next := [L "other", L "z"], types := [1] } :: wzone.chain) := by
+  intro r hr
+  rcases List.mem_cons.mp hr with rfl | hr
+  · exact Or.inr (by decide)
+  · exact Or.inl hr
+example : evaluateAggressiveNSEC [L "example", L "b"] 1 1 wzone.apex
+    ({ owner := [L "other"], next := [L "other", L "z"], types := [1] } :: wzone.chain) = .error .missing := by decide
+
 /-! ## NSEC3 (the hash is an arbitrary function) -/
 
 section nsec3
@@ -363,6 +395,39 @@ theorem nsec3_nameerror_sound (all hashed : List Name) (H : Name → Hash) (reco
       findCoverer (fun n => some (H n)) ring (q.take (k + 1)) = .ok nc ∧
       secure = (nc.flags % 2 == 0) ∧ (secure = true → q ∉ all) :=
   verifyNameError_sound hgen hclosed h
+
+/-- **`EvaluateAggressiveNSEC3` never fabricates an NXDOMAIN, for an arbitrary
+hash.**  If every record offered is genuine and the evaluator synthesises
+NXDOMAIN, the question name is not in the zone's tree: the evaluator found
+the next-closer name strictly inside a span that carries no Opt-Out flag
+(an Opt-Out cover is `ErrNSECOptOut`), and the tree is closed under ancestors. -/
+theorem aggressive_nsec3_nxdomain_sound (all hashed : List Name) (H : Name → Hash) (records : List Nsec3)
+    (hgen : ∀ r ∈ records, RecGenuine all hashed H r) (signer q : Name) (t qclass : Nat)
+    (hclosed : ∀ n ∈ all, ∀ j, signer.length ≤ j → j ≤ n.length → n.take j ∈ all) (p : List Nat)
+    (h : evaluateAggressiveNSEC3 (fun n => some (H n)) q t qclass signer records = .ok (.nxdomain, p)) :
+    q ∉ all :=
+  evaluateAggressiveNSEC3_nx_sound hgen hclosed h
+
+-- non-vacuity: a one-name zone `z.` under the toy hash "number of labels"; its
+-- single-record ring proves NXDOMAIN for `a.z.` securely
+def toyH : Name → Hash := fun n => [n.length]
+def toyRec : Nsec3 :=
+  { owner := [L "z", [1]], ownerHash := some [1], next := some [1], hashLen := 1, alg := 1, flags := 0, iter := 0,
+    salt := some [], cls := 1, types := [2, 6] }
+example : verifyNameError (fun n => some (toyH n)) [toyRec] [L "z"] [L "z", L "a"] 1 = .ok true := by decide
+example : evaluateAggressiveNSEC3 (fun n => some (toyH n)) [L "z", L "a"] 1 1 [L "z"] [toyRec] = .ok (.nxdomain, [0]) := by
+  decide
+example : RecGenuine [[L "z"]] [[L "z"]] toyH toyRec where
+  gap := by
+    intro oh nh h1 h2 n hn
+    simp only [toyRec, Option.some.injEq] at h1 h2
+    subst h1 h2
+    rw [List.mem_singleton] at hn; subst hn; decide
+  gapAll := by
+    intro _ oh nh h1 h2 n hn
+    simp only [toyRec, Option.some.injEq] at h1 h2
+    subst h1 h2
+    rw [List.mem_singleton] at hn; subst hn; decide
 
 end nsec3
 
@@ -467,6 +532,15 @@ theorem incomplete_is_not_denial :
     · cases h
     · rename_i p; exact ⟨p, rfl⟩
     · cases h
+
+-- non-vacuity: an admissible write is recorded; one flipped guard is not
+example : proofRecorded
+    { reqCD := false, respCD := false, ecs := false, hasScope := false, marked := true,
+      copied := false, kind := 1, agg := true, fam := 1, nx := true, optout := false } = true := by decide
+example : cutRecorded
+    { reqCD := false, respCD := false, ecs := false, hasScope := false, marked := true,
+      copied := false, kind := 2, agg := true, fam := 2, nx := true, optout := true } = false := by decide
+example : (authority .nsec3 (.ok true) (.ok .nxdomain) true false).aggressive = true := by decide
 
 end admission
 
